@@ -70,6 +70,20 @@ func (e *Engine) registerChanGhosts(f *ssa.Function) {
 				for _, st := range in.States {
 					add(st.Chan)
 				}
+			case *ssa.Go:
+				var cal *ssa.Function
+				if c := in.Common().StaticCallee(); c != nil {
+					cal = c
+				} else if mc, ok := in.Common().Value.(*ssa.MakeClosure); ok {
+					cal, _ = mc.Fn.(*ssa.Function)
+				}
+				if cal != nil {
+					for i, a := range in.Common().Args {
+						if len(shapeOf(a.Type())) == 1 {
+							e.chanGhostT[fmt.Sprintf("$spawnarg_%s_%d", cal.Name(), i)] = a.Type()
+						}
+					}
+				}
 			}
 		}
 	}
